@@ -98,6 +98,11 @@ pub trait Property {
     fn floors(&self, _tier: Tier) -> Vec<(&'static str, u64)> {
         vec![]
     }
+    /// CPU seconds one case may take before the worker gives up on it; Some(sig): such a case is a
+    /// violation with that signature (termination is part of the property), None: inconclusive
+    fn hang_signature(&self) -> Option<&'static str> {
+        None
+    }
     /// extra keys for the evidence coverage object, computed from merged labels
     fn extra_coverage(&self, _labels: &BTreeMap<String, u64>) -> Vec<(String, J)> {
         vec![]
@@ -272,6 +277,7 @@ impl CurFile {
     }
     fn set(&mut self, family: &str, bytes: &[u8]) {
         use std::io::{Seek, SeekFrom};
+        CASE_START_TICKS.store(cpu_ticks(), std::sync::atomic::Ordering::Relaxed);
         if let Some(f) = self.file.as_mut() {
             let _ = f.seek(SeekFrom::Start(0));
             let line = format!("{} {}\n", family, hex(bytes));
@@ -292,6 +298,37 @@ fn glob_match(pattern: &str, text: &str) -> bool {
         }
         _ => false,
     }
+}
+
+static CASE_START_TICKS: std::sync::atomic::AtomicU64 = std::sync::atomic::AtomicU64::new(0);
+
+/// user + system CPU time of this process in clock ticks (1/100 s)
+fn cpu_ticks() -> u64 {
+    let stat = fs::read_to_string("/proc/self/stat").unwrap_or_default();
+    // fields after the command name (which may contain spaces, but ends with ')')
+    let rest = stat.rsplit_once(')').map(|x| x.1).unwrap_or("");
+    let f: Vec<&str> = rest.split_whitespace().collect();
+    // rest starts at field 3 (state): utime is field 14, stime field 15
+    let utime: u64 = f.get(11).and_then(|x| x.parse().ok()).unwrap_or(0);
+    let stime: u64 = f.get(12).and_then(|x| x.parse().ok()).unwrap_or(0);
+    utime + stime
+}
+
+/// A case that burns more than the CPU budget is abandoned: the worker writes `<out>.hang` and
+/// exits with status 3 (the case in progress is in the `.cur` file).
+fn start_watchdog(out: &Path) {
+    let limit_s: u64 = std::env::var("VERIF_CASE_CPU_S").ok().and_then(|s| s.parse().ok()).unwrap_or(60);
+    let marker = out.with_extension("hang");
+    CASE_START_TICKS.store(cpu_ticks(), std::sync::atomic::Ordering::Relaxed);
+    std::thread::spawn(move || loop {
+        std::thread::sleep(std::time::Duration::from_millis(250));
+        let start = CASE_START_TICKS.load(std::sync::atomic::Ordering::Relaxed);
+        let now = cpu_ticks();
+        if now.saturating_sub(start) > limit_s * 100 {
+            let _ = fs::write(&marker, format!("{} cpu ticks on one case", now - start));
+            std::process::exit(3);
+        }
+    });
 }
 
 fn known_match<'a>(known: &'a [Known], sig: &str) -> Option<&'a Known> {
@@ -324,6 +361,7 @@ fn known_match<'a>(known: &'a [Known], sig: &str) -> Option<&'a Known> {
 /// Run worker `w` of `n`: its share of every family. Writes a JSON report to `out`.
 pub fn run_worker(prop: &dyn Property, tier: Tier, seed: u64, w: u64, n: u64, out: &Path) {
     let known = load_known(prop.id());
+    start_watchdog(out);
     let cur_path = out.with_extension("cur");
     let cur = std::cell::RefCell::new(CurFile::new(Some(&cur_path)));
     let mut labels: BTreeMap<String, u64> = BTreeMap::new();
@@ -742,6 +780,7 @@ pub fn run_parent(prop: &dyn Property, tier: Tier, seed: u64) -> i32 {
         children.push((w, out, child));
     }
     let mut reports: Vec<J> = Vec::new();
+    let mut seen_hang: HashSet<String> = HashSet::new();
     for (w, out, mut child) in children {
         // wait with backstop
         let status = loop {
@@ -776,6 +815,31 @@ pub fn run_parent(prop: &dyn Property, tier: Tier, seed: u64) -> i32 {
                     inconclusive.push(format!("worker {} wrote an unreadable report", w));
                 } else {
                     // died before finishing: the case in progress is the suspect
+                    if out.with_extension("hang").exists() {
+                        let cur = out.with_extension("cur");
+                        let line = fs::read_to_string(&cur).unwrap_or_default();
+                        match (prop.hang_signature(), line.trim().split_once(' ')) {
+                            (Some(sig), Some((family, hx))) => {
+                                let bytes = unhex(hx);
+                                if known_match(&known, sig).is_none() && seen_hang.insert(sig.to_string()) {
+                                    let p = write_replay(
+                                        &root.join("replays").join("new"),
+                                        id,
+                                        family,
+                                        &bytes,
+                                        sig,
+                                        "the case did not finish within the per-case CPU budget (60 s; normal cases take microseconds)",
+                                        &prop.render(family, &bytes),
+                                    );
+                                    println!("VIOLATION property={} replay={}", id, p.display());
+                                    println!("  {}: a case used more than the CPU budget without finishing", sig);
+                                    violations.push((sig.to_string(), p));
+                                }
+                            }
+                            _ => inconclusive.push(format!("worker {} abandoned a case that exceeded the per-case CPU budget", w)),
+                        }
+                        continue;
+                    }
                     if stderr_text.contains("panicked at src/") || stderr_text.contains("panicked at harness/src/") {
                         let first = stderr_text.lines().skip_while(|l| !l.contains("panicked at")).take(2).collect::<Vec<_>>().join(" ");
                         inconclusive.push(format!("worker {} hit a bug in the harness itself: {}", w, first));
